@@ -114,6 +114,20 @@ def gen_construct(r: random.Random, depth: int = 0):
         body = r.choice(["/foo", "a b", "~/x", ""])
         q = r.choice(['"', "'"])
         return k, f"{pre}{q}{body}{q}", f"__xonsh__.path_literal({pystr(body)})", "primary"
+    if k == "help" and r.random() < 0.4:
+        # a chain of lookups with independently chosen marks: obj?.a??.b?
+        n = r.choice(["range", "os", "foo"])
+        src, t = n, n
+        steps = r.randint(2, 3)
+        for i in range(steps):
+            mark = r.choice(["?", "??"])
+            t = f"__xonsh__.{'help' if mark == '?' else 'superhelp'}({t})"
+            src += mark
+            if i < steps - 1:
+                a = r.choice(["index", "path", "join", "y"])
+                src += "." + a
+                t += "." + a
+        return k, src, t, "primary"
     if k == "help":
         n = r.choice(["range", "x", "foo"])
         return k, n + "?", f"__xonsh__.help({n})", "primary"
@@ -245,6 +259,15 @@ XONSH_STMTS = [
     "pf = pf'{x}/bin'\n",
     "range?\n",
     "range?.index?\n",
+    "range?.index??\n",
+    "range??.index?\n",
+    "f!(a,\n   b)\n",
+    "g!(\n x,\n y)\n",
+    "r = h!(a,\n\tb, c\n)\n",
+    "t = a or b || c\n",
+    "u = a && b and c || d\n",
+    "/usr/$X/bin\n" if False else "$(ls /usr/$X/bin --prefix=$HOME/opt $A$B.txt pre$(cmd x)post)\n",
+    "$(tar @(name).tar.gz --color=@(mode),always log-@$(date +%F).txt)\n",
     "os?.path?.join??\n",
     "x = a?.b\n",
     "len??\n",
